@@ -21,9 +21,7 @@ Theorem src_read_is_rd cnt L n e rest :
   events st' = [("r.reader.Read", [0])].
 Proof.
   unfold run, src_limited_read, src_limited_read_results, read_state, read_over.
-  cbn [exec exec_s eval get put assign locals fields events inputs String.eqb Ascii.eqb Bool.eqb map tl app].
-  destruct (L <? cnt + n) eqn:E; cbn [truthy b2z negb Z.eqb exec exec_s eval get put locals fields events inputs map String.eqb Ascii.eqb Bool.eqb];
-    repeat split; reflexivity.
+  golite_cases; repeat split; try reflexivity; try lia.
 Qed.
 
 Theorem src_reset_is_reset cnt L rest :
@@ -32,7 +30,6 @@ Theorem src_reset_is_reset cnt L rest :
   get (fields st') "r.read" = reset_count cnt /\ get (fields st') "r.limit" = L.
 Proof.
   unfold run, src_limited_reset, src_limited_reset_results, reset_count.
-  cbn [exec exec_s eval get put locals fields events inputs String.eqb Ascii.eqb Bool.eqb map].
-  split; reflexivity.
+  golite_cases; repeat split; try reflexivity; try lia.
 Qed.
 End Src.
